@@ -71,6 +71,9 @@ def _regions(chrpre, par):
         px, py = CN.PAR[par]["X"], CN.PAR[par]["Y"]
         regs += [(chrpre + "X", px[0][0] + 100_000, px[0][0] + 150_000), (chrpre + "X", px[1][0] + 100_000, px[1][0] + 150_000),
                  (chrpre + "Y", py[0][0] + 100_000, py[0][0] + 150_000), (chrpre + "Y", py[1][0] + 100_000, py[1][0] + 150_000)]
+        # bins flush with the PAR: a run whose first bin starts exactly at PAR1's first base, a run whose last bin (12 x 1000 + 900 bases on) ends exactly at PAR2's end
+        regs += [(chrpre + "X", px[0][0], px[0][0] + 50_000), (chrpre + "Y", py[0][0], py[0][0] + 50_000),
+                 (chrpre + "X", px[1][1] - 12_900, px[1][1]), (chrpre + "Y", py[1][1] - 12_900, py[1][1])]
     return regs
 
 
@@ -142,6 +145,8 @@ def case_random(run, i):
     par = [None, "grch37", "grch38"][int(rng.integers(0, 3))]
     n = int(rng.integers(1, 40))
     chroms = sorted(rng.choice(["1", "2", "10", "X", "Y"], n), key=["1", "2", "10", "X", "Y"].index)
+    if i % 5 == 3:
+        chroms = list(rng.permutation(chroms))      # rows of one chromosome not adjacent (stacked / shuffled tables): each row is still called on its own values
     starts = np.cumsum(rng.integers(1000, 5_000_000, n))
     lg = rng.uniform(-30, 30, n)
     lg[rng.random(n) < 0.1] = -30.0
